@@ -92,23 +92,24 @@ var srcPriority = []string{"kernel_uapi", "kernel_uapi_generic", "x_sys_v0_48", 
 
 func buildArch(name, auditKey string, info *arch.Info) *Arch {
 	o := LoadOracles()
-	a := &Arch{Name: name, ID: o.AuditArch[auditKey], Info: info, IsX86_64: name == "x86_64", num: map[string]uint32{}}
+	a := &Arch{Name: name, ID: o.AuditArch[auditKey], Info: info, IsX86_64: name == "x86_64" || name == "x32", num: map[string]uint32{}}
 	if a.ID == 0 {
 		panic("no audit arch oracle for " + name)
 	}
+	mask := uint32(info.SeccompMask)
 	for n, v := range info.SyscallNames {
 		found := false
 		for _, src := range srcPriority {
 			if t, ok := o.Tables[name][src]; ok {
 				if ov, ok := t[n]; ok {
-					a.num[n] = uint32(ov)
+					a.num[n] = uint32(ov) | mask
 					found = true
 					break
 				}
 			}
 		}
 		if !found {
-			a.num[n] = uint32(v)
+			a.num[n] = uint32(v) | mask
 			a.Unoracled++
 		}
 	}
@@ -131,7 +132,22 @@ func Archs() []*Arch {
 	return archCache
 }
 
+var archX32 *Arch
+
+// ArchX32 describes the x32 ABI as a policy architecture. It cannot be selected through the public API (the package
+// picks the architecture from GOARCH) but the compiler accepts it through the architecture hook; it shares
+// AUDIT_ARCH_X86_64, its syscall numbers carry the x32 bit, and the x32 guard of x86_64 programs applies to it.
+func ArchX32() *Arch {
+	if archX32 == nil {
+		archX32 = buildArch("x32", "X86_64", arch.X32)
+	}
+	return archX32
+}
+
 func ArchByName(n string) *Arch {
+	if n == "x32" {
+		return ArchX32()
+	}
 	for _, a := range Archs() {
 		if a.Name == n {
 			return a
